@@ -11,7 +11,17 @@
         (excluding) the initialisation loop of the new slots: the first-free-slot loop, the growth test, the new table
         size and the size passed to realloc
 See tools/c2g/slicelib.py for the conventions (pointers as integers, `word` = 8-byte memory read, call effects as ghost
-outputs, abort macros dropped).  coq/C10/AllocGen.v proves that the hand-written model computes exactly these."""
+outputs, abort macros dropped).  coq/C10/AllocGen.v proves that the hand-written model computes exactly these.
+
+Second group `LedgerC10` (coq/Gen/LedgerC10.v), regenerated from /repo/src/sc_notify.c (compiled with SC_ENABLE_MPI against
+tools/simmpi/mpi.h): the OWNERSHIP LEDGER of one level of sc_notify_recursive (the binary notify behind sc_notify () and
+SC_NOTIFY_BINARY), see tools/c2g/ledgerlib.py for the events and what is refused:
+  * notify_recursive_prefix_b (c)  - the statements of the `length > 1` branch in front of `sendbuf = sc_array_new (..)`
+        (the recursive call and the computation of the peers): only mentions of the caller's array
+  * notify_recursive_ledger_b (c)  - from `sendbuf = sc_array_new (..)` to the end of the branch: every sc_array_new / init /
+        reset / destroy / resize / push / sc_notify_merge / struct assignment on array, sendbuf, recvbuf, morebuf, on every
+        path (c i = value of the i-th branch condition; the conditions themselves are emitted as .._c<i> for the reader)
+coq/C10/LedgerProofs.v proves that the generated event list is balanced for EVERY valuation of the conditions."""
 import os, re
 
 
@@ -112,3 +122,41 @@ def register(GROUPS, c2g, incs, REPO, HERE, STRUCTS, Group):
         return g, [f]
 
     GROUPS["AllocC10"] = gen_alloc
+
+    def gen_ledger(tmp):
+        import ledgerlib as ll
+        g = Group("LedgerC10")
+        f = os.path.join(REPO, "src", "sc_notify.c")
+        sim = os.path.join(os.path.dirname(HERE), "simmpi")
+        objs = c2g.clang_ast(f, "sc_notify_recursive", incs(tmp) + [sim], defs=("SC_ENABLE_MPI",))
+        F = c2g.find_function(objs, "sc_notify_recursive")
+        body = [c for c in F["inner"] if c.get("kind") == "CompoundStmt"][0]
+        # outside the `if (length > 1)` statement the function must not touch any array
+        ifs = [s for s in body.get("inner", []) if s.get("kind") == "IfStmt"]
+        if len(ifs) != 1 or "length" not in sl.refs(ifs[0]["inner"][0]) or len(ifs[0]["inner"]) > 2 and \
+                sl.find_nodes(ifs[0]["inner"][2], lambda n: n.get("kind") in ("CallExpr", "BinaryOperator", "UnaryOperator")):
+            raise c2g.Unsupported("sc_notify_recursive: body is not a single `if (length > 1) { .. }` with an empty else branch")
+        rest = [s for s in body.get("inner", []) if s is not ifs[0]]
+        t, i = ll.emit_ledger(rest, "notify_recursive_outside", "sc_notify_recursive")
+        if not t.rstrip().endswith(":=\n[]."):
+            raise c2g.Unsupported("sc_notify_recursive: array operations outside the `length > 1` branch")
+        then = ifs[0]["inner"][1]
+        if then.get("kind") != "CompoundStmt":
+            raise c2g.Unsupported("sc_notify_recursive: the `length > 1` branch is not a block")
+        then = then.get("inner", [])
+        cut = [k for k, s_ in enumerate(then) if sl.find_nodes(s_, lambda n: sl.callee_name(n) in ll.NEW + ll.INIT)]
+        if not cut:
+            raise c2g.Unsupported("sc_notify_recursive: no sc_array_new / sc_array_init in the recursion branch")
+        cut = cut[0]
+        g.text += ll.PRELUDE
+        t, i = ll.emit_ledger(then[:cut], "notify_recursive_prefix", "sc_notify_recursive", self_calls=("sc_notify_recursive",),
+                              comment="sc_notify_recursive, branch `length > 1`, statements in front of the first sc_array_new: "
+                                      "the recursive call (which hands the caller's array on) and the computation of peer / peer2")
+        g.add(t, i)
+        t, i = ll.emit_ledger(then[cut:], "notify_recursive_ledger", "sc_notify_recursive",
+                              comment="sc_notify_recursive, branch `length > 1`, from the first sc_array_new to the end of the branch: "
+                                      "ownership events on array (the caller's), sendbuf, recvbuf (heap), morebuf (local struct)")
+        g.add(t, i)
+        return g, [f]
+
+    GROUPS["LedgerC10"] = gen_ledger
